@@ -2,20 +2,51 @@
    Proved: whatever tree the decoder accepts — no well-formedness hypothesis on the
    input — the document it builds is well formed (coherent identifier maps, unique
    bundle keys), so it is a reachable document to which the C01 value-level round
-   trip theorems apply; the decoder's refusals are computed Examples; and what the
+   trip theorems apply; every record it builds has an attribute dictionary keyed by pairwise different URIs whose value lists are sets
+   (C11_json_decoded_shape) and holds only values in stored form, each of which is written and re-loaded as itself
+   (C11_json_decoded_values_reload); the decoder's refusals are computed Examples; and what the
    writer emits for a container is read back record by record
    (C11_written_container_reloads); for PROV-XML, record level: the element written for a record
    is loaded as that record (C11_written_xml_record_reloads).  Stability of whole documents and agreement with the specification reader are decided per run
    (correspondence + oracle over generated and mutated corpus trees). *)
 From Coq Require Import String List ZArith.
 From Prov Require Import Str StrProofs Sexp Tables Nsm NsmProofs Values Record World WorldProofs Jtree Json JsonProofs JsonSpec JsonRecProofs JsonContProofs
-  Xml XmlProofs XmlLabel XmlLabelProofs XmlRec XmlRead XmlRecProofs XmlReadProofs.
+  Xml XmlProofs XmlLabel XmlLabelProofs XmlRec XmlRead XmlRecProofs XmlReadProofs IdemProofs GoodProofs JsonValueProofs ShapeProofs.
 Import ListNotations.
 Open Scope string_scope.
 
 Theorem C11_json_decoded_wellformed : forall ft t nd, decode_doc ft t = OK nd -> DCoh nd /\ uniq (dbundles nd).
 Proof. exact decode_doc_inv. Qed.
 Print Assumptions C11_json_decoded_wellformed.
+
+(* ---- what the reader builds, for EVERY tree it accepts (no hypothesis on the input): in every record of the document and
+   of its bundles the attribute dictionary has keys of pairwise different URIs and value lists that are sets — two of
+   the premises (rec_ok) under which C01 / C11_written_container_reloads show that writing a container and loading the
+   result gives it again; for documents that were themselves loaded from a text they are theorems *)
+Theorem C11_json_decoded_shape : forall ft t nd, decode_doc ft t = OK nd ->
+  forall b r, In b (doc_containers nd) -> In r (brecs b) ->
+  NoDup (map key_uri (rattrs r)) /\ Forall (fun kv => set_distinct (snd kv)) (rattrs r).
+Proof. exact decoded_records_shape. Qed.
+Print Assumptions C11_json_decoded_shape.
+
+(* the invariant behind it: add_attributes keeps that shape whichever way it ends (completed, refused half-way) *)
+Theorem C11_add_attributes_keeps_shape : forall c m r l, ShapeR r ->
+  match add_attributes c m r l with
+  | ADone _ r' => ShapeR r'
+  | AFail _ r' _ => ShapeR r'
+  | AOOD => True
+  end.
+Proof. exact add_attributes_shape. Qed.
+
+(* every value of every record the reader built — whatever spelling the foreign text used for it — is in stored form
+   (decode_doc_DGood), so it is written and loaded again as itself as soon as the names it mentions are bound and
+   printable in the container's manager and its float is in the float table (value_ok: exactly the situations of the open
+   findings C01-F1..F3 are excluded): "writing d and loading the result gives d again" at value level, for all of d *)
+Theorem C11_json_decoded_values_reload : forall ft t nd, decode_doc ft t = OK nd ->
+  forall b r a vs v, In b (doc_containers nd) -> In r (brecs b) -> In (a, vs) (rattrs r) -> In v vs ->
+  forall c m, cft c = ft -> Builtins m -> value_ok c m v -> rt c m v.
+Proof. exact decoded_values_roundtrip. Qed.
+Print Assumptions C11_json_decoded_values_reload.
 
 (* forms the library's writer never produces *)
 Definition obj := JObj.
